@@ -81,6 +81,14 @@ func (a *API) SearchPromises(id string, state string, tags map[string]string, li
 			return nil, RequestValidationError(err)
 		}
 
+		// the signing key is not a secret, a well signed cursor can carry anything
+		if cursor.Next == nil || cursor.Next.Id == "" || len(cursor.Next.States) == 0 || cursor.Next.Limit < 1 || cursor.Next.Limit > 100 {
+			return nil, RequestValidationError(errors.New("The field cursor is invalid."))
+		}
+		if cursor.Next.Tags == nil {
+			cursor.Next.Tags = map[string]string{}
+		}
+
 		return cursor.Next, nil
 	}
 
@@ -146,6 +154,14 @@ func (a *API) SearchSchedules(id string, tags map[string]string, limit int, curs
 		cursor, err := t_api.NewCursor[t_api.SearchSchedulesRequest](cursor)
 		if err != nil {
 			return nil, RequestValidationError(err)
+		}
+
+		// the signing key is not a secret, a well signed cursor can carry anything
+		if cursor.Next == nil || cursor.Next.Id == "" || cursor.Next.Limit < 1 || cursor.Next.Limit > 100 {
+			return nil, RequestValidationError(errors.New("The field cursor is invalid."))
+		}
+		if cursor.Next.Tags == nil {
+			cursor.Next.Tags = map[string]string{}
 		}
 
 		return cursor.Next, nil
